@@ -140,19 +140,36 @@ def binary(prop, fam, signed):
     return out, names
 
 
-def unary(prop, lab, filt):
+def unary(prop, lab, filt, split_regs=False):
     out, names = [], []
     for w, t in ((8, 'u8'), (16, 'u16')):
         ww = 'byte' if w == 8 else 'word'
-        for k, mk, tail, args in (('r', 'dst_reg%d' % w, '%s_reg' % ww, '(0, f, 0), (0, d.%s, 0)' % ('b' if w == 8 else 'w')),
-                                  ('m', 'opnd_mem', 'T_%s__memory_addr' % ww, '(0, f, 0), %s, (0, d.m, 0)' % ('KB' if w == 8 else 'KW')),
-                                  ('l', 'opnd_lab', '%s_label' % ww, '(0, f, 0), (0, d.m, 0)')):
+        for k, mk, tail, args, probe in (('r', 'dst_reg%d' % w, '%s_reg' % ww, '(0, f, 0), (0, d.%s, 0)' % ('b' if w == 8 else 'w'), 'no'),
+                                         ('m', 'opnd_mem', 'T_%s__memory_addr' % ww, '(0, f, 0), %s, (0, d.m, 0)' % ('KB' if w == 8 else 'KW'), 'yes'),
+                                         ('l', 'opnd_lab', '%s_label' % ww, '(0, f, 0), (0, d.m, 0)', 'yes')):
             h = '%sb_unary_%s%d' % (prop, k, w)
             NT = 'NT_%s_unary_arithmetic' % ww
-            out.append('unop!(%s, "%s.unary.%s%d", %s, %d, nt_%s_unary_arithmetic, %s_N, %s_TEXT, %s_ID, %s,\n    %s,\n'
-                       '    |vm: &mut VM, ctx: &mut Context, f, d: &Op| p_unary_arithmetic__%s_unary_arithmetic__%s(CUR, vm, ctx, "", %s));'
-                       % (h, lab, k, w, t, w, ww, NT, NT, NT, mk, filt, ww, tail, args))
+            if k == 'r' and split_regs:
+                # one instance per operand register (8 each): with the register concrete the kernel's
+                # multiplier / divider is the same circuit on both sides of the comparison
+                call = '|vm: &mut VM, ctx: &mut Context, f, d: &Op| p_unary_arithmetic__%s_unary_arithmetic__%s(CUR, vm, ctx, "", %s)' % (ww, tail, args)
+                for r in range(8):
+                    hh = '%s_k%d' % (h, r)
+                    out.append('unop!(%s, "%s.unary.%s%d", %s, %d, nt_%s_unary_arithmetic, %s_N, %s_TEXT, %s_ID, dst_reg%d_k%d,\n    %s, no,\n    %s);'
+                               % (hh, lab, k, w, t, w, ww, NT, NT, NT, w, r, filt, call))
+                    names.append(hh)
+                out.append('frame_only_un!(%s_frame, "%s.unary.%s%d", nt_%s_unary_arithmetic, %s_N, %s_ID, %s,\n    %s,\n    %s);'
+                           % (h, lab, k, w, ww, NT, NT, mk, filt, call))
+                names.append(h + '_frame')
+                continue
+            call = '|vm: &mut VM, ctx: &mut Context, f, d: &Op| p_unary_arithmetic__%s_unary_arithmetic__%s(CUR, vm, ctx, "", %s)' % (ww, tail, args)
+            out.append('unop!(%s, "%s.unary.%s%d", %s, %d, nt_%s_unary_arithmetic, %s_N, %s_TEXT, %s_ID, %s,\n    %s, %s,\n    %s);'
+                       % (h, lab, k, w, t, w, ww, NT, NT, NT, mk, filt, probe, call))
             names.append(h)
+            if probe == 'no':
+                out.append('frame_only_un!(%s_frame, "%s.unary.%s%d", nt_%s_unary_arithmetic, %s_N, %s_ID, %s,\n    %s,\n    %s);'
+                           % (h, lab, k, w, ww, NT, NT, mk, filt, call))
+                names.append(h + '_frame')
     return out, names
 
 
@@ -177,7 +194,7 @@ if __name__ == '__main__':
         '// C01 (B-harnesses): the 16 binary_arithmetic and 6 unary_arithmetic (INC/DEC/NEG) productions.\n'
         '// Instantiations written by lib/mk_interp_harness.py; the bodies are the macros of interp_ab_ops.rs.\n' + HDR
         + '\n'.join(b) + '\n\n' + '\n'.join(u) + TWIN % ('c01b', 'C01b') + '\n' + table(bn + un + ['c01b_twin_reach']))
-    u, un = unary('c03', 'C03b', '|id: u8| !(id == ID_dec || id == ID_inc || id == ID_neg)')
+    u, un = unary('c03', 'C03b', '|id: u8| !(id == ID_dec || id == ID_inc || id == ID_neg)', split_regs=True)
     open(os.path.join(H, 'interp_c03.rs'), 'w').write(
         '// C03 (B-harnesses): the 6 unary_arithmetic productions with MUL/IMUL/DIV/IDIV (divide error -> INT 0).\n' + HDR
         + '\n'.join(u) + '\n\n' + table(un))
